@@ -88,8 +88,10 @@ class FakeS3:
                 self.log.append(("put", Key, {"cond": "IfMatch", "ok": False}))
                 raise client_error("PreconditionFailed", "PutObject", 412)
         prev = cur["body"] if cur else None
-        self.objects[Key] = {"body": Body, "etag": self.etag_of(Body), "mtime": self.now()}
-        self.log.append(("put", Key, {"cond": "IfMatch" if IfMatch else ("IfNoneMatch" if IfNoneMatch else None), "ok": True, "prev": prev, "body": Body}))
+        now = self.now()
+        self.objects[Key] = {"body": Body, "etag": self.etag_of(Body), "mtime": now}
+        self.log.append(("put", Key, {"cond": "IfMatch" if IfMatch else ("IfNoneMatch" if IfNoneMatch else None), "ok": True, "prev": prev, "body": Body,
+                                      "prev_age_s": (now - cur["mtime"]).total_seconds() if cur else None}))
         req["landed"] = True
         self._h("after", "put", Key, req)
         return {"ETag": self.objects[Key]["etag"]}
